@@ -231,6 +231,14 @@ def executor_scope(task_src: str, ctx_src: str) -> tuple[str, dict]:
     info = {"wf_context_per": ctx_per, "executor_held_by": holder, "attr": held_attr}
     if holder == "keyed":
         info["container"] = container
+        # a weak container loses the entry with the last reference to the key object of the earlier attempt
+        cname = (container or "").split(".")[-1].split(" ")[-1]
+        info["container_weak"] = any(
+            isinstance(n, ast.Assign | ast.AnnAssign) and getattr(n, "value", None) is not None
+            and any((isinstance(t, ast.Name) and t.id == cname) or (isinstance(t, ast.Attribute) and t.attr == cname)
+                    for t in (n.targets if isinstance(n, ast.Assign) else [n.target]))
+            and "Weak" in ast.dump(n.value)
+            for n in ast.walk(ctx_tree))
         return "PerInvocationKey", info
     if holder == "invocation":
         return "PerExecution", info
@@ -385,6 +393,23 @@ def _walk_code(node: ast.AST):
 _GLOBAL_RNG_OK = {"Random", "SystemRandom"}
 
 
+def _immutable(v: ast.AST | None) -> bool:
+    """A module-level / class-level binding to an immutable literal is a constant, not state."""
+    if v is None:
+        return True
+    if isinstance(v, ast.Constant | ast.JoinedStr):
+        return True
+    if isinstance(v, ast.Tuple):
+        return all(_immutable(e) for e in v.elts)
+    if isinstance(v, ast.UnaryOp | ast.BinOp):
+        return all(_immutable(x) for x in ast.iter_child_nodes(v) if isinstance(x, ast.expr))
+    if isinstance(v, ast.Call):
+        f = (_dotted(v.func) or "").split(".")[-1]
+        if f in ("frozenset", "tuple", "compile", "TypeVar", "ParamSpec", "getLogger", "int", "str", "float", "bytes"):
+            return f in ("TypeVar", "ParamSpec", "getLogger", "compile") or all(_immutable(a) or isinstance(a, ast.List | ast.Set) for a in v.args)
+    return False
+
+
 def generators_private(tree: ast.Module, cls: ast.ClassDef) -> tuple[bool, list[str], bool, list[str]]:
     """(generators private?, reasons, execute_task private?, reasons).  Raises TranslateError on names it
     cannot classify."""
@@ -399,6 +424,10 @@ def generators_private(tree: ast.Module, cls: ast.ClassDef) -> tuple[bool, list[
                 if isinstance(m, ast.ImportFrom | ast.Import):
                     modules |= {(a.asname or a.name).split(".")[0] for a in m.names}
         elif isinstance(n, ast.Assign | ast.AnnAssign | ast.AugAssign):
+            if not isinstance(n, ast.AugAssign) and _immutable(n.value):
+                modules |= {m.id for t in (n.targets if isinstance(n, ast.Assign) else [n.target])
+                            for m in ast.walk(t) if isinstance(m, ast.Name)}       # constants: free to use
+                continue
             for t in (n.targets if isinstance(n, ast.Assign) else [n.target]):
                 for m in ast.walk(t):
                     if isinstance(m, ast.Name):
@@ -416,7 +445,7 @@ def generators_private(tree: ast.Module, cls: ast.ClassDef) -> tuple[bool, list[
                 continue
             for t in (n.targets if isinstance(n, ast.Assign) else [n.target]):
                 if isinstance(t, ast.Name):
-                    class_data.add(t.id)
+                    (inst if _immutable(n.value) else class_data).add(t.id)     # class constants are not state
         elif isinstance(n, ast.FunctionDef):
             methods.add(n.name)
             for m in ast.walk(n):
